@@ -27,7 +27,7 @@ typereg = sys.modules.setdefault("sim_typereg", types.ModuleType("sim_typereg"))
 
 PROFILES = {
     # op weights: construct, set_leaf, set_compound, bind, copy, drop, raw, grow, misuse, restart, json
-    "construct": dict(w=dict(construct=50, set_leaf=10, set_compound=4, bind=4, copy=6, drop=4, raw=10, grow=8, misuse=0, restart=0, json=2, kill=3)),
+    "construct": dict(w=dict(construct=50, set_leaf=10, set_compound=4, bind=4, copy=6, drop=4, raw=10, grow=8, misuse=0, restart=0, json=2, kill=3), force_p=dict(big_dims=0.12)),
     "neighbours": dict(w=dict(construct=30, set_leaf=25, set_compound=10, bind=5, copy=5, drop=3, raw=15, grow=5, misuse=0, restart=0, json=0)),
     "two_handles": dict(w=dict(construct=25, set_leaf=30, set_compound=10, bind=5, copy=6, drop=15, raw=4, grow=8, misuse=0, restart=0, json=0, kill=4)),
     "assign": dict(w=dict(construct=15, set_leaf=45, set_compound=18, bind=3, copy=2, drop=4, raw=3, grow=10, misuse=0, restart=0, json=0)),
@@ -479,6 +479,9 @@ class GenSource:
                 return None
             if rng.random() < 0.3:
                 value["as_obj"] = True  # an xo.String object (with its own, smaller capacity) instead of a str
+                if rng.random() < 0.4:
+                    # ... or with a LARGER capacity than the destination, while its text fits
+                    value["obj_cap"] = cap + rng.choice([1, 7, 8, 9, 24, 40])
         op = {"op": "set", "obj": o.k, "path": p, "value": value, "via": self._via(o)}
         if isinstance(p[-1], list) and rng.random() < 0.15 and all(0 <= i < 100 for i in p[-1]):
             op["np_index"] = rng.choice(["int8", "uint8", "int16", "int64"])  # index given as numpy integers
@@ -644,7 +647,7 @@ class GenSource:
                 return None
             if w.schema[ty["item"]]["k"] == "sc" and self.sw.get("nd_input") and rng.random() < 0.4:
                 hexd = "".join(x["x"] for x in its)
-                return {"nd": {"hex": hexd, "src": w.schema[ty["item"]]["t"], "shape": list(node.shape), "layout": rng.choice(["C", "C", "F", "strided"])}}
+                return {"nd": {"hex": hexd, "src": w.schema[ty["item"]]["t"], "shape": list(node.shape), "layout": rng.choice(["C", "C", "F", "strided", "be"])}}
             return {"l": its, "shape": list(node.shape)}
         if k == "ref":
             # inside a compound value: null the reference, or leave it bound where it is
@@ -1097,6 +1100,9 @@ class Step:
             py, node = mat.mat(t, op["value"])
         except KeyError:
             raise Skip()
+        for hb, hoff, hsize in mat.helper_allocs:
+            self.allowed.append((hb, hoff, hoff + hsize))
+            hb._sim_allocs.append((hoff, hsize))
         if op.get("form") == "kwargs" and isinstance(py, dict):
             args, kwargs = (), py
         elif isinstance(py, tuple) and "dims" in op["value"]:
@@ -1510,7 +1516,13 @@ class Step:
         w, op = self.w, self.op
         if op["buf"] >= len(w.bufs):
             raise Skip()
-        w.bufs[op["buf"]].grow(op["n"])
+        buf = w.bufs[op["buf"]]
+        try:
+            buf.grow(op["n"])
+        except Exception as e:
+            self.outcome = "raised:" + exc_sig(e)
+            self.viol("C20" if getattr(buf, "_sim_restored", False) else "C04", "valid_grow_raised", ["grow", exc_sig(e)], f"grow({op['n']}): {type(e).__name__}: {e}")
+            return
         self.res.fault("grow")
 
     def op_grow_until(self):
@@ -1525,7 +1537,7 @@ class Step:
             try:
                 off = buf.allocate(sz)
             except Exception as e:
-                self.viol("C04", "valid_allocation_raised", ["grow_until", exc_sig(e)], f"allocate({sz}): {type(e).__name__}: {e}")
+                self.viol("C20" if getattr(buf, "_sim_restored", False) else "C04", "valid_allocation_raised", ["grow_until", exc_sig(e)], f"allocate({sz}): {type(e).__name__}: {e}")
                 return
             w.regions.append([buf, off, sz])
             n += 1
